@@ -1,10 +1,200 @@
-(* C19/Props.v -- property theorems only. *)
+(* C19/Props.v -- property theorems only; each is closed by [exact] of a lemma from
+   C19/Proofs.v and followed by Print Assumptions.
+
+   The model (C19/Model.v) is a transcription of odl/tomo/util/utility.py and
+   odl/tomo/geometry/{detector,geometry,parallel,conebeam}.py, tied to /repo by the
+   correspondence (harness/c19.py).  Reading guide: an angle is the pair (cos, sin);
+   [on_circle a] says cos^2 + sin^2 = 1; [rt] is instantiated with the real [sqrt];
+   vectors are tuples, matrices tuples of rows; [is_rot m] = "m^T m = I and det m = 1". *)
 From Coq Require Import Reals List Bool.
 From Verif Require Import Base.Num C19.Model C19.Proofs.
 Import ListNotations.
 Local Open Scope R_scope.
 
-Theorem euler2_orthonormal : forall c s : R, c * c + s * s = 1 ->
-  mm2 (tr2 (euler2 (c, s))) (euler2 (c, s)) = id2 /\ det2 (euler2 (c, s)) = 1.
-Proof. exact euler2_orthonormal_l. Qed.
-Print Assumptions euler2_orthonormal.
+(* ================= 1. rotation matrices: orthonormal, determinant one ================= *)
+(* euler_matrix(phi) -- Parallel2dGeometry, FanBeamGeometry *)
+Theorem euler2_is_rotation : forall a : R * R, on_circle a ->
+  mm2 (tr2 (euler2 a)) (euler2 a) = id2 /\ det2 (euler2 a) = 1.
+Proof. exact euler2_rot. Qed.
+Print Assumptions euler2_is_rotation.
+
+(* euler_matrix(phi, theta, psi), ZXZ -- Parallel3dEulerGeometry *)
+Theorem euler3_is_rotation : forall phi theta psi : R * R,
+  on_circle phi -> on_circle theta -> on_circle psi ->
+  mm3 (tr3 (euler3 phi theta psi)) (euler3 phi theta psi) = id3 /\ det3 (euler3 phi theta psi) = 1.
+Proof. exact euler3_rot. Qed.
+Print Assumptions euler3_is_rotation.
+
+(* axis_rotation_matrix (Rodrigues) for a unit axis -- AxisOrientedGeometry.rotation_matrix;
+   the axis itself is fixed *)
+Theorem axis_rotation_is_rotation : forall (ax : R * R * R) (a : R * R),
+  dot3 ax ax = 1 -> on_circle a ->
+  (mm3 (tr3 (axis_rot ax a)) (axis_rot ax a) = id3 /\ det3 (axis_rot ax a) = 1) /\
+  mv3 (axis_rot ax a) ax = ax.
+Proof. exact axis_rotation_is_rotation_l. Qed.
+Print Assumptions axis_rotation_is_rotation.
+
+(* AxisOrientedGeometry.__init__ rejects exactly the zero axis and stores a unit axis, so the
+   previous theorem applies to every Parallel3dAxisGeometry / ConeBeamGeometry that exists *)
+Theorem stored_axis_is_unit : forall axis : R * R * R,
+  (axis = (0, 0, 0) -> unit_axis sqrt axis = None) /\
+  (axis <> (0, 0, 0) -> exists u, unit_axis sqrt axis = Some u /\ dot3 u u = 1).
+Proof. exact unit_axis_spec. Qed.
+Print Assumptions stored_axis_is_unit.
+
+(* a rotation preserves inner products (hence lengths, distances, angles) *)
+Theorem rotation_preserves_inner_products :
+  (forall (m : (R * R) * (R * R)) v w, mm2 (tr2 m) m = id2 -> dot2 (mv2 m v) (mv2 m w) = dot2 v w) /\
+  (forall (m : (R * R * R) * (R * R * R) * (R * R * R)) v w,
+     mm3 (tr3 m) m = id3 -> dot3 (mv3 m v) (mv3 m w) = dot3 v w).
+Proof. exact rotation_preserves_inner_products_l. Qed.
+Print Assumptions rotation_preserves_inner_products.
+
+(* ====== 2. detector point = reference point + rotated surface point; rigid motion ====== *)
+(* By definition of the model (Geometry.det_point_position) the detector point IS
+   det_refpoint + R surface(u).  The theorems below say more: the whole detector at angle a is the
+   rotation about the translation point of an angle-independent configuration, and distances on
+   the detector are those of the intrinsic surface -- for every stored state, angle and parameter. *)
+Theorem parallel2d_rigid_motion : forall (g : par2d) (a : R * R) (p q : dpar2),
+  par2d_detpoint g a p = add2 (par2d_refpoint g a) (mv2 (par2d_rot g a) (surf2 (p2_det g) p)) /\
+  par2d_detpoint g a p =
+    add2 (p2_tr g) (mv2 (euler2 a) (add2 (sub2 (p2_pos g) (p2_tr g)) (surf2 (p2_det g) p))) /\
+  (on_circle a ->
+   dot2 (sub2 (par2d_detpoint g a p) (par2d_detpoint g a q)) (sub2 (par2d_detpoint g a p) (par2d_detpoint g a q))
+   = dot2 (sub2 (surf2 (p2_det g) p) (surf2 (p2_det g) q)) (sub2 (surf2 (p2_det g) p) (surf2 (p2_det g) q))).
+Proof. exact parallel2d_rigid_motion_l. Qed.
+Print Assumptions parallel2d_rigid_motion.
+
+Theorem parallel3d_axis_rigid_motion : forall (g : par3a) (a : R * R) (p q : dpar3),
+  par3a_detpoint g a p = add3 (par3a_refpoint g a) (mv3 (par3a_rot g a) (surf3 (pa_det g) p)) /\
+  par3a_detpoint g a p =
+    add3 (pa_tr g) (mv3 (axis_rot (pa_axis g) a) (add3 (sub3 (pa_pos g) (pa_tr g)) (surf3 (pa_det g) p))) /\
+  (dot3 (pa_axis g) (pa_axis g) = 1 -> on_circle a ->
+   dot3 (sub3 (par3a_detpoint g a p) (par3a_detpoint g a q)) (sub3 (par3a_detpoint g a p) (par3a_detpoint g a q))
+   = dot3 (sub3 (surf3 (pa_det g) p) (surf3 (pa_det g) q)) (sub3 (surf3 (pa_det g) p) (surf3 (pa_det g) q))).
+Proof. exact parallel3d_axis_rigid_motion_l. Qed.
+Print Assumptions parallel3d_axis_rigid_motion.
+
+Theorem parallel3d_euler_rigid_motion : forall (g : par3d) (ph th ps : R * R) (p q : dpar3),
+  par3d_detpoint g ph th ps p =
+    add3 (par3d_refpoint g ph th ps) (mv3 (par3d_rot g ph th ps) (surf3 (p3_det g) p)) /\
+  par3d_detpoint g ph th ps p =
+    add3 (p3_tr g) (mv3 (euler3 ph th ps) (add3 (sub3 (p3_pos g) (p3_tr g)) (surf3 (p3_det g) p))) /\
+  (on_circle ph -> on_circle th -> on_circle ps ->
+   dot3 (sub3 (par3d_detpoint g ph th ps p) (par3d_detpoint g ph th ps q))
+        (sub3 (par3d_detpoint g ph th ps p) (par3d_detpoint g ph th ps q))
+   = dot3 (sub3 (surf3 (p3_det g) p) (surf3 (p3_det g) q)) (sub3 (surf3 (p3_det g) p) (surf3 (p3_det g) q))).
+Proof. exact parallel3d_euler_rigid_motion_l. Qed.
+Print Assumptions parallel3d_euler_rigid_motion.
+
+(* fan beam, incl. detector shift: detector point and source at angle a are the rotation about the
+   translation point of their positions at angle 0 (same shift values) *)
+Theorem fanbeam_rigid_motion : forall (g : fan) (a : R * R) (ssh dsh : R * R) (p : dpar2),
+  fan_detpoint g a dsh p = add2 (fan_refpoint g a dsh) (mv2 (fan_rot g a) (surf2 (f_det g) p)) /\
+  fan_detpoint g a dsh p = add2 (f_tr g) (mv2 (euler2 a) (sub2 (fan_detpoint g (1, 0) dsh p) (f_tr g))) /\
+  fan_src g a ssh = add2 (f_tr g) (mv2 (euler2 a) (sub2 (fan_src g (1, 0) ssh) (f_tr g))).
+Proof. exact fanbeam_rigid_motion_l. Qed.
+Print Assumptions fanbeam_rigid_motion.
+
+(* cone beam incl. helical pitch, offset and shifts: rotation about the axis through the translation
+   point, plus the displacement  offset + pitch * angle / 2 pi + shift_z  along the axis *)
+Theorem conebeam_rigid_motion : forall (g : cone) (a : R * R) (ang twopi : R) (dsh : R * R * R) (p : dpar3),
+  cone_detpoint sqrt g a ang twopi dsh p =
+    add3 (cone_refpoint sqrt g a ang twopi dsh) (mv3 (cone_rot g a) (surf3 (c_det g) p)) /\
+  cone_detpoint sqrt g a ang twopi dsh p =
+    add3 (add3 (c_tr g) (scal3 (cone_along g ang twopi (snd dsh)) (c_axis g)))
+         (mv3 (axis_rot (c_axis g) a)
+              (sub3 (cone_detpoint sqrt g (1, 0) ang twopi dsh p)
+                    (add3 (c_tr g) (scal3 (cone_along g ang twopi (snd dsh)) (c_axis g))))).
+Proof. exact conebeam_rigid_motion_l. Qed.
+Print Assumptions conebeam_rigid_motion.
+
+Theorem conebeam_helical_pitch : forall (g : cone) (a : R * R) (ang ang' twopi : R) (ssh : R * R * R),
+  twopi <> 0 ->
+  sub3 (cone_src sqrt g a ang' twopi ssh) (cone_src sqrt g a ang twopi ssh)
+  = scal3 (c_pitch g * (ang' - ang) / twopi) (c_axis g).
+Proof. exact cone_src_pitch. Qed.
+Print Assumptions conebeam_helical_pitch.
+
+Theorem conebeam_source_height : forall (g : cone) (a : R * R) (ang twopi : R),
+  dot3 (c_axis g) (c_axis g) = 1 -> on_circle a -> dot3 (c_s2d g) (c_axis g) = 0 ->
+  dot3 (sub3 (cone_src sqrt g a ang twopi (0, 0, 0)) (c_tr g)) (c_axis g) = cone_along g ang twopi 0.
+Proof. exact cone_src_height. Qed.
+Print Assumptions conebeam_source_height.
+
+(* ============== 3. source-to-detector / detector-to-source consistency ============== *)
+(* DivergentBeamGeometry.det_to_src: det point + det_to_src(normalized=False) = source position;
+   the normalised vector has unit length and  |v| * direction = v  -- every angle, shift, parameter *)
+Theorem fanbeam_det_to_src : forall (g : fan) (a : R * R) (ssh dsh : R * R) (p : dpar2),
+  add2 (fan_detpoint g a dsh p) (fan_det_to_src sqrt g a ssh dsh p false) = fan_src g a ssh /\
+  (fan_src g a ssh <> fan_detpoint g a dsh p ->
+   let n := fan_det_to_src sqrt g a ssh dsh p true in
+   let v := fan_det_to_src sqrt g a ssh dsh p false in
+   dot2 n n = 1 /\ scal2 (norm2 sqrt v) n = v /\
+   add2 (fan_detpoint g a dsh p) (scal2 (norm2 sqrt v) n) = fan_src g a ssh).
+Proof. exact fanbeam_det_to_src_l. Qed.
+Print Assumptions fanbeam_det_to_src.
+
+Theorem conebeam_det_to_src : forall (g : cone) (a : R * R) (ang twopi : R) (ssh dsh : R * R * R) (p : dpar3),
+  add3 (cone_detpoint sqrt g a ang twopi dsh p) (cone_det_to_src sqrt g a ang twopi ssh dsh p false)
+    = cone_src sqrt g a ang twopi ssh /\
+  (cone_src sqrt g a ang twopi ssh <> cone_detpoint sqrt g a ang twopi dsh p ->
+   let n := cone_det_to_src sqrt g a ang twopi ssh dsh p true in
+   let v := cone_det_to_src sqrt g a ang twopi ssh dsh p false in
+   dot3 n n = 1 /\ scal3 (norm3 sqrt v) n = v /\
+   add3 (cone_detpoint sqrt g a ang twopi dsh p) (scal3 (norm3 sqrt v) n) = cone_src sqrt g a ang twopi ssh).
+Proof. exact conebeam_det_to_src_l. Qed.
+Print Assumptions conebeam_det_to_src.
+
+(* fan beam without shift functions: source on the circle of radius src_radius, detector reference
+   point on the circle of radius det_radius about the translation point, on opposite sides, at
+   distance src_radius + det_radius *)
+Theorem fanbeam_circles : forall (g : fan) (a : R * R),
+  dot2 (f_s2d g) (f_s2d g) = 1 -> on_circle a ->
+  let s := sub2 (fan_src g a (0, 0)) (f_tr g) in
+  let r := sub2 (fan_refpoint g a (0, 0)) (f_tr g) in
+  dot2 s s = f_rs g * f_rs g /\ dot2 r r = f_rd g * f_rd g /\
+  scal2 (f_rs g) r = scal2 (- f_rd g) s /\
+  dot2 (sub2 r s) (sub2 r s) = (f_rs g + f_rd g) * (f_rs g + f_rd g).
+Proof. exact fan_circles. Qed.
+Print Assumptions fanbeam_circles.
+
+(* ===================== 4. parallel beams: one ray direction ===================== *)
+(* surface normals are unit vectors orthogonal to the surface tangent(s) -- all five detector classes *)
+Theorem detector_normals :
+  (forall (d : det2d) (p : dpar2), deriv2 d p <> (0, 0) ->
+     dot2 (normal2 sqrt d p) (deriv2 d p) = 0 /\ dot2 (normal2 sqrt d p) (normal2 sqrt d p) = 1) /\
+  (forall (d : det3d) (p : dpar3), cross3 (fst (deriv3 d p)) (snd (deriv3 d p)) <> (0, 0, 0) ->
+     dot3 (normal3 sqrt d p) (fst (deriv3 d p)) = 0 /\ dot3 (normal3 sqrt d p) (snd (deriv3 d p)) = 0 /\
+     dot3 (normal3 sqrt d p) (normal3 sqrt d p) = 1).
+Proof. exact detector_normals_l. Qed.
+Print Assumptions detector_normals.
+
+(* Parallel2dGeometry: det_to_src is the same for all detector points, of unit length, and
+   orthogonal to the rotated detector axis *)
+Theorem parallel2d_ray_direction : forall (g : par2d) (a : R * R) (p q : dpar2) (ax : R * R),
+  p2_det g = Flat1 ax -> dot2 ax ax = 1 -> on_circle a ->
+  par2d_det_to_src sqrt g a p = par2d_det_to_src sqrt g a q /\
+  dot2 (par2d_det_to_src sqrt g a p) (par2d_det_to_src sqrt g a p) = 1 /\
+  dot2 (par2d_det_to_src sqrt g a p) (par2d_det_axis g a) = 0.
+Proof. exact par2d_ray. Qed.
+Print Assumptions parallel2d_ray_direction.
+
+(* Parallel3dAxis/EulerGeometry: for ANY rotation matrix m (sections 1) and independent detector
+   axes: the direction m n is the same for all detector points, unit, orthogonal to both rotated axes *)
+Theorem parallel3d_ray_direction : forall (m : (R * R * R) * (R * R * R) * (R * R * R)) (a0 a1 : R * R * R) (p q : dpar3),
+  mm3 (tr3 m) m = id3 -> cross3 a0 a1 <> (0, 0, 0) ->
+  let n := fun p => mv3 m (normal3 sqrt (Flat2 a0 a1) p) in
+  n p = n q /\ dot3 (n p) (n p) = 1 /\ dot3 (n p) (mv3 m a0) = 0 /\ dot3 (n p) (mv3 m a1) = 0.
+Proof. exact par3_ray_generic. Qed.
+Print Assumptions parallel3d_ray_direction.
+
+(* the detector constructors establish the hypotheses used above (unit axes, independence) *)
+Theorem detector_constructors_wellformed :
+  (forall axis d, mk_flat1 sqrt axis = Some d -> wf_det2 d) /\
+  (forall axis r d, mk_circ sqrt axis r = Some d -> wf_det2 d) /\
+  (forall a0 a1 d, mk_flat2 sqrt a0 a1 = Some d -> wf_det3 d).
+Proof. exact detector_constructors_wellformed_l. Qed.
+Print Assumptions detector_constructors_wellformed.
+
+(* hypotheses are satisfiable: a concrete geometry built by the constructor at the executable carrier *)
